@@ -1,6 +1,11 @@
 package cluster
 
 import (
+	"context"
+
+	"github.com/tikv/pd/server/config"
+	"github.com/tikv/pd/server/core"
+	"github.com/tikv/pd/server/id"
 	"github.com/tikv/pd/server/replication"
 	"github.com/tikv/pd/server/schedule/placement"
 )
@@ -17,3 +22,11 @@ func VerifSetReplicationMode(c *RaftCluster, m *replication.ModeManager) { c.rep
 
 // VerifSetRuleManager installs a placement rule manager (InitCluster/Start normally do this).
 func VerifSetRuleManager(c *RaftCluster, m *placement.RuleManager) { c.ruleManager = m }
+
+// VerifNewCluster builds a RaftCluster the way Server.createRaftCluster + InitCluster do, without starting
+// background workers (harness helper, overlay only).
+func VerifNewCluster(id id.Allocator, opt *config.PersistOptions, storage *core.Storage) *RaftCluster {
+	c := &RaftCluster{ctx: context.Background(), running: true}
+	c.InitCluster(id, opt, storage, core.NewBasicCluster())
+	return c
+}
